@@ -113,9 +113,17 @@ func TimeBasedRangeQueries[C TimeBasedCursor[C]](after, before *C, atOrAfterTime
 
 	middle := TimeBasedRangeQuery{atOrAfterTime, beforeTime.Add(-time.Nanosecond), limit}
 
+	// A cursor's exact timestamp only needs to be (and only may be) queried if it lies inside the
+	// requested time window.
+	inWindow := func(t time.Time) bool {
+		return !t.Before(atOrAfterTime) && t.Before(beforeTime)
+	}
+
 	if after != nil {
 		afterTime := (*after).Time()
-		queries = append(queries, TimeBasedRangeQuery{afterTime, afterTime, 0})
+		if inWindow(afterTime) {
+			queries = append(queries, TimeBasedRangeQuery{afterTime, afterTime, 0})
+		}
 		if t := time.Unix(0, afterTime.UnixNano()+1); t.After(middle.MinTime) {
 			middle.MinTime = t
 		}
@@ -123,7 +131,7 @@ func TimeBasedRangeQueries[C TimeBasedCursor[C]](after, before *C, atOrAfterTime
 
 	if before != nil {
 		beforeTime := (*before).Time()
-		if after == nil || !(*after).Time().Equal(beforeTime) {
+		if inWindow(beforeTime) && (after == nil || !(*after).Time().Equal(beforeTime)) {
 			queries = append(queries, TimeBasedRangeQuery{beforeTime, beforeTime, 0})
 		}
 		if t := time.Unix(0, beforeTime.UnixNano()-1); t.Before(middle.MaxTime) {
